@@ -1,4 +1,5 @@
 (* C03 - Validation never accepts an ill-formed or wrong-checksum mnemonic. *)
+From B39 Require Import Proofs.Calls.
 From B39 Require Import Lib.Base Lib.Sha256 Lib.Nfkd Model.GenTypes Model.Model Spec.Bip39Spec.
 From B39 Require Import Proofs.Tables Proofs.LibContract Proofs.Sound Proofs.Api Proofs.Count Proofs.Exact.
 
@@ -32,6 +33,11 @@ Proof. exact last_word_count. Qed.
 Theorem C03_exact : forall lib, lib_contract lib -> forall (name : string) (l : Z) (s : list byte), supported name l ->
   (CheckMnemonicL lib s l = Ret None <-> exists ent, valid_ent (length ent) /\ nfkd s = plain_sentence name ent).
 Proof. exact accepted_iff_encoding. Qed.
+
+(* the functions this property is about, and every package function they reach, call only what the model
+   accounts for (closed world of callees, computed on coq/Gen/Calls.v, regenerated from the source every run) *)
+Theorem C03_callees : reach_ok "CheckMnemonic" = true /\ reach_ok "IsMnemonicValid" = true.
+Proof. exact calls_validator. Qed.
 
 Print Assumptions C03_sound.
 Print Assumptions C03_exact.
